@@ -517,6 +517,26 @@ def run(prog: Program, rep, tier: str) -> None:
             accept_rets.append((r, v))
         elif nm and nm.endswith("reject_with_penalty"):
             reject_rets.append((r, v))
+        elif nm == "PenaltyResult":
+            # built directly: PenaltyResult(rho, flag) with the flag a literal or the outcome of the insertion itself on this path
+            pinit_ = prog.func("pygradflow.penalty.PenaltyResult.__init__")
+            b_ = bind_args(pinit_, v)
+            pn_ = [p_ for p_ in pinit_.params if p_ != "self"]
+            kind = None
+            if b_ is not None and len(pn_) >= 2:
+                fl = uf.resolved(r, b_[pn_[1]])
+                facts_r = uf.at(r).facts
+                if isinstance(fl, ast.Constant) and isinstance(fl.value, bool):
+                    kind = fl.value
+                elif U(fl) == ins_text and ("truthy", ins_text, None) in facts_r:
+                    kind = True
+                elif U(fl) == ins_text and ("falsy", ins_text, None) in facts_r:
+                    kind = False
+            if kind is None:
+                other.append(r)
+            else:
+                syn = ast.copy_location(ast.Call(func=v.func, args=[b_[pn_[0]]], keywords=[]), v)
+                (accept_rets if kind else reject_rets).append((r, syn))
         else:
             other.append(r)
     rep.check(len(accept_rets) >= 1 and len(reject_rets) >= 1 and not other, "filter-5-results", upd.qualname, short(other[0]) if other else "",
